@@ -1,5 +1,7 @@
 package vc
 
+import "strings"
+
 // Property configurations (which packages carry the functions under contract).
 
 var rtModule = Module{Dir: "runtime", Patterns: []string{"./internal/runtime"}}
@@ -38,5 +40,19 @@ func init() {
 			"unbuffered hand-off, close racing with a hand-off and several receivers: bounded schedule exploration only (small scenarios, capped enumeration)",
 			"Select/TrySelect commitment beyond the probing-order contract; every liveness clause in general (the explored scenarios do check that nobody stays blocked)",
 		}}
-	PropConfigs["C05"] = &PropConfig{ID: "C05", Modules: []Module{rtModule}, Specs: []string{"common.smt2", "utf8.smt2"}}
+	PropConfigs["C05"] = &PropConfig{ID: "C05", Modules: []Module{rtModule}, Specs: []string{"common.smt2", "utf8.smt2"},
+		// slice expressions: the operands the compiler hands to NewSlice3 / StringSlice / MakeSlice
+		// (the same emitted-code cases as under C03, restricted to the argument obligations)
+		Extra: func(ck *Checker, rep *Report, opts *Options) []*Goal {
+			if opts.OnlyFn != "" && !strings.Contains("ssa.Builder.Slice ssa.Builder.MakeSlice cl.compileInstrOrValue(*ssa.Slice)", opts.OnlyFn) {
+				return nil
+			}
+			var ret []*Goal
+			for _, g := range c03CompilerGoals(ck, rep, opts) {
+				if strings.HasPrefix(g.Oblig, "ssa.Builder.Slice/args") || strings.HasPrefix(g.Oblig, "ssa.Builder.MakeSlice/args") || strings.HasPrefix(g.Oblig, "cl.Slice/") {
+					ret = append(ret, g)
+				}
+			}
+			return ret
+		}}
 }
